@@ -79,8 +79,7 @@ example : ∀ p < 631, ∀ F', decode Example.tetCfg ((encodeWith Example.altLay
   fun p hp F' => (permitted_prefix_rejected _ _ _ Example.altLayout_valid (by rw [Example.altLayout_length]; decide) p
     (by rw [Example.altLayout_length]; exact hp) F').1
 example : decode Example.tetCfg (encode Example.tetFile) = .ok Example.tetFile :=
-  decode_encode _ _ Example.tetFile_wf Example.tetFile_accepts Example.tetFile_size Example.tetFile_faces
-    Example.tetFile_cells
+  decode_encode _ _ Example.tetFile_wf Example.tetFile_accepts Example.tetFile_size
 
 /-- write side: `Ok` only when the mesh needs no garbage collection and the stream took every byte of the
     file, in order -/
